@@ -534,7 +534,7 @@ func (w *world) onStart(d *delivery) {
 		}
 	}
 	if req.kind == kIO {
-		d.ioStart = w.ioExpectation(req)
+		d.ioStart = w.ioExpectation(req, 1) // this delivery is counted as in flight already
 	}
 	if req.kind == kProbeFH {
 		if leaf, ok := w.leafOfFH(req.fh); ok {
@@ -1030,7 +1030,7 @@ func isSpecialStateID(s nfsv4.Stateid4) bool {
 
 // ioExpectation says what READ/WRITE/SETATTR with the request's state ID on
 // the request's file handle must result in, according to the model right now.
-func (w *world) ioExpectation(req *request) ioExpect {
+func (w *world) ioExpectation(req *request, own int) ioExpect {
 	s := req.sid
 	if isSpecialStateID(s) {
 		return ioExpect{known: true, mayOK: true, why: "special state ID"}
@@ -1045,9 +1045,12 @@ func (w *world) ioExpectation(req *request) ioExpect {
 		}
 	} else {
 		candidates = []*client{c}
-		if c.inflightAll > 1 || c.clientInflight > 0 {
-			// State IDs of NFSv4.1 are small per-client counters: a
-			// request in flight may be creating the very ID.
+		if c.inflightAll > own || c.clientInflight > 0 {
+			// State IDs of NFSv4.1 are small per-client counters ("state
+			// #n of whoever asks"): another request of this client that is
+			// in flight (on another lane, or a copy under way) may be
+			// creating the very ID. own: how many of the deliveries counted
+			// in flight are this request's own.
 			return ioExpect{why: "client busy"}
 		}
 	}
@@ -1115,7 +1118,7 @@ func (w *world) applyIO(req *request, d *delivery) {
 	// (I/O with a regular state ID renews the lease of the client that owns
 	// the state, which need not be the sender; the model does not count on
 	// it.)
-	end := w.ioExpectation(req)
+	end := w.ioExpectation(req, 0) // this delivery is no longer counted as in flight
 	if !d.ioStart.known || !end.known || d.ioStart.key() != end.key() || d.clEpoch != c.epoch {
 		switch {
 		case !d.ioStart.known:
